@@ -114,4 +114,4 @@ class StdArity:
 def check(ctx):
     progs = SC.default_programs(ctx, usage_programs(ctx) + StdArity.programs())
     return SC.run(ctx, "C13", ["Oq3.Props.C13", "Oq3.Props.C09StdGates", "Oq3.Props.C13StdGates"], [OA, StdArity], progs,
-                  "generated programs with wrong arities, wrong operand kinds, const targets, gates/defs/qubits in non-global scopes, returns at top level, delays with non-duration designators, PLUS the cross products of the rules' inputs, one usage per program over a fixed preamble: assignment target kind (33: every scalar type, const/non-const, registers, indexed, qubits, gates, subroutines, undeclared, built-in constants) x value kind (33) x operator (11); gate modifier x callee kind x argument list x operand list; declarations/returns/includes in every scope kind; delay designator x operand; call callee x arguments; quantum operand x binary operator; oracle: the usage rules recomputed from the typed AST and the recorded symbol types, compared with errors= as multisets of kind@span (missing and spurious)")
+                  "generated programs with wrong arities, wrong operand kinds, const targets, gates/defs/qubits in non-global scopes, returns at top level, delays with non-duration designators, PLUS the cross products of the rules' inputs, one usage per program over a fixed preamble: assignment target kind (33: every scalar type, const/non-const, registers, indexed, qubits, gates, subroutines, undeclared, built-in constants) x value kind (33) x operator (11); gate modifier x callee kind x argument list x operand list; declarations/returns/includes in every scope kind; delay designator x operand; call callee x arguments; quantum operand x binary operator; oracle: the usage rules recomputed from the typed AST and the recorded symbol types, compared with errors= as multisets of kind@span (missing and spurious); PLUS every standard-library gate and U called with k-1, k, k+1 parameters and m-1, m, m+1 qubits (205 programs), reported iff the call differs from the OpenQASM 3 specification's signature (STD_SPEC, independent of the code's table, which the model follows)")
